@@ -30,7 +30,7 @@ func init() {
 		ID:    "C01",
 		Floor: 40,
 		Rule: "case = (feature type T, prior state pristine|after a random prefix of subscribes, binds and data updates, sending peer 0..2); its cells are the request matrix classifier x function x ack x destination kind, " +
-			"enumerated completely in the thorough tier and sampled 1/10 (+ full NodeManagement row) in the quick tier. A case is non-trivial if at least one reply, one success result and one error result were observed and judged; " +
+			"enumerated completely in every case of both tiers (quick: two rounds over all feature types, prior states and senders, the second sending from the nested entity [1,1]; thorough: eight rounds with fresh prefixes and payloads). A case is non-trivial if at least one reply, one success result and one error result were observed and judged; " +
 			"distinct = distinct (T, prior state, sender, set of response classes seen).",
 		Assumptions: []string{
 			"message handling is synchronous in HandleSpineMesssage when no approval callback is registered, so the trace is complete when the call returns",
@@ -40,10 +40,12 @@ func init() {
 		Parts: []rig.Part{{
 			Name: "matrix",
 			Cases: func(t rig.Tier) int {
+				// one round = every (feature type, prior state, sender) once, each walking the complete cell matrix;
+				// odd rounds send from the peers' nested entity [1,1]
 				if t == rig.Thorough {
-					return len(types) * 2 * 3
+					return len(types) * 2 * 3 * 8
 				}
-				return 48
+				return len(types) * 2 * 3 * 2
 			},
 			Run: c01Case,
 		}},
@@ -74,7 +76,8 @@ type c01World struct {
 }
 
 func c01Feats(T model.FeatureTypeType) []rig.FS {
-	return []rig.FS{rig.NMFS, {Ent: []uint{1}, Id: 1, Typ: T, Role: model.RoleTypeClient}, {Ent: []uint{1}, Id: 2, Typ: T, Role: model.RoleTypeServer}}
+	return []rig.FS{rig.NMFS, {Ent: []uint{1}, Id: 1, Typ: T, Role: model.RoleTypeClient}, {Ent: []uint{1}, Id: 2, Typ: T, Role: model.RoleTypeServer},
+		{Ent: []uint{1, 1}, Id: 1, Typ: T, Role: model.RoleTypeClient}, {Ent: []uint{1, 1}, Id: 2, Typ: T, Role: model.RoleTypeServer}}
 }
 
 func newC01World(c *rig.Ctx, T model.FeatureTypeType) *c01World {
@@ -157,8 +160,10 @@ func c01Cells(cw *c01World) []c01Cell {
 func c01Case(c *rig.Ctx) {
 	types := c01Types()
 	T := types[(c.Index/6)%len(types)]
-	if !c.Thorough() {
-		T = types[(c.Index+int(c.Seed%1000))%len(types)]
+	round := c.Index / (6 * len(types))
+	srcEnt := []uint{1}
+	if round%2 == 1 {
+		srcEnt = []uint{1, 1}
 	}
 	prefixed := c.Index%2 == 1
 	sender := (c.Index / 2) % 3
@@ -168,9 +173,12 @@ func c01Case(c *rig.Ctx) {
 	r := c.Rand
 
 	srvAddr, cliAddr := cw.srv.Address(), cw.cli.Address()
-	peerClient := func(p *rig.Peer) *model.FeatureAddressType { return rig.FA(p.Addr, []uint{1}, 1) }
-	peerServer := func(p *rig.Peer) *model.FeatureAddressType { return rig.FA(p.Addr, []uint{1}, 2) }
-	key := func(p *rig.Peer, server *model.FeatureAddressType) string { return p.Ski + "|" + server.String() }
+	peerClient := func(p *rig.Peer) *model.FeatureAddressType { return rig.FA(p.Addr, srcEnt, 1) }
+	peerServer := func(p *rig.Peer) *model.FeatureAddressType { return rig.FA(p.Addr, srcEnt, 2) }
+	key := func(p *rig.Peer, server *model.FeatureAddressType) string {
+		return p.Ski + "|" + peerClient(p).String() + "|" + server.String()
+	}
+	holder := func(p *rig.Peer) string { return p.Ski + "|" + peerClient(p).String() }
 
 	if prefixed {
 		for i := 0; i < 6; i++ {
@@ -182,7 +190,7 @@ func c01Case(c *rig.Ctx) {
 			case 1:
 				if _, bound := cw.binds[srvAddr.String()]; !bound {
 					p.Bind(peerClient(p), srvAddr, T)
-					cw.binds[srvAddr.String()] = p.Ski
+					cw.binds[srvAddr.String()] = holder(p)
 				}
 			default:
 				f := cw.fns[r.Intn(len(cw.fns))]
@@ -200,18 +208,6 @@ func c01Case(c *rig.Ctx) {
 	var trace []string
 	p := w.Peers[sender]
 	for ci, cell := range cells {
-		if !c.Thorough() && cell.dest == "nm" && cell.nodev && r.Intn(2) == 0 {
-			continue
-		}
-		if !c.Thorough() && cell.dest != "nm" {
-			keep := 20
-			if cell.dest == "server" && (cell.cl == model.CmdClassifierTypeWrite || cell.cl == model.CmdClassifierTypeRead) {
-				keep = 6 // the rows with the most specific expectations are sampled more densely
-			}
-			if r.Intn(keep) != 0 {
-				continue
-			}
-		}
 		cell.gen = r.Intn(2) == 0 && cell.cl != model.CmdClassifierTypeRead && cell.cl != model.CmdClassifierTypeResult && cell.dest != "nm"
 		var src, dst *model.FeatureAddressType
 		var destFeat api.FeatureLocalInterface
@@ -275,13 +271,13 @@ func c01Case(c *rig.Ctx) {
 					class, want = "call-bind-bound->error", []string{oneErr}
 				} else {
 					class, want = "call-bind->accepted", []string{okIfAck}
-					cw.binds[srvAddr.String()] = p.Ski
+					cw.binds[srvAddr.String()] = holder(p)
 				}
 			}
 		case cmd.NodeManagementBindingDeleteCall != nil:
 			cmd.NodeManagementBindingDeleteCall = spine.NewNodeManagementBindingDeleteCallType(peerClient(p), srvAddr)
 			if isCall {
-				if cw.binds[srvAddr.String()] == p.Ski {
+				if cw.binds[srvAddr.String()] == holder(p) {
 					class, want = "call-unbind->accepted", []string{okIfAck}
 					delete(cw.binds, srvAddr.String())
 				} else {
@@ -318,7 +314,7 @@ func c01Case(c *rig.Ctx) {
 				class, want = "read-nodemanagement->reply", []string{oneReply}
 			case cell.cl == model.CmdClassifierTypeRead:
 				class, want = "read-other(shape)", []string{oneReply, oneErr}
-			case cell.cl == model.CmdClassifierTypeWrite && cell.dest == "server" && inT && cw.writable[fn] && cw.binds[srvAddr.String()] == p.Ski:
+			case cell.cl == model.CmdClassifierTypeWrite && cell.dest == "server" && inT && cw.writable[fn] && cw.binds[srvAddr.String()] == holder(p):
 				class, want = "write-authorised(count)", []string{okIfAck, oneErr}
 			case cell.cl == model.CmdClassifierTypeWrite:
 				class, want = "write-unauthorised->error", []string{oneErr}
@@ -347,7 +343,7 @@ func c01Case(c *rig.Ctx) {
 		}
 		mc := p.Send(cell.cl, src, dst, cell.ack, ref, cmd)
 		c.Events(1)
-		id := fmt.Sprintf("T=%s prefixed=%v peer=%d :: %s", T, prefixed, sender, cell)
+		id := fmt.Sprintf("T=%s prefixed=%v peer=%d srcEntity=%v :: %s", T, prefixed, sender, srcEnt, cell)
 		if n := p.PanicCount(); n > 0 {
 			c.Violate("panic/"+cell.dest+"/"+string(cell.cl), "%s :: %s", id, p.Panics[n-1])
 			p.Panics = nil
@@ -426,13 +422,13 @@ func c01Case(c *rig.Ctx) {
 		cl = append(cl, k)
 	}
 	sort.Strings(cl)
-	c.Shape(fmt.Sprintf("%s/%v/%d/%s", T, prefixed, sender, strings.Join(cl, ",")))
+	c.Shape(fmt.Sprintf("%s/%v/%d/%v/%s", T, prefixed, sender, srcEnt, strings.Join(cl, ",")))
 	c.NonTrivial(replies > 0 && oks > 0 && errs > 0)
 	c.Seen("feature_types", string(T))
 	for _, k := range cl {
 		c.Seen("response_classes", k)
 	}
-	c.Sample(map[string]any{"feature_type": T, "prefixed": prefixed, "sender": sender, "cells": trace, "replies": replies, "success_results": oks, "error_results": errs})
+	c.Sample(map[string]any{"feature_type": T, "prefixed": prefixed, "sender": sender, "source_entity": srcEnt, "cells": trace, "replies": replies, "success_results": oks, "error_results": errs})
 }
 
 func c01NMReadable(fn model.FunctionType) bool {
